@@ -1,6 +1,7 @@
 //! Oracles: post-hoc analysis of one execution's trace. Each clause is tied to one sentence of
 //! one property; each returns the earliest violation.
 
+pub mod c13;
 pub mod proto;
 pub mod sem;
 
